@@ -6,6 +6,7 @@ same Python values; it is described by the path condition PC collected at the ob
 asked for a representative outside all classes seen so far until it is unsat (exhausted) or the
 time box expires (partial)."""
 from __future__ import annotations
+import signal
 import time
 import traceback
 import z3
@@ -28,6 +29,7 @@ class Ctx:
         self.model = None
         self.pc = []
         self.nobs = 0
+        self.seen = set()
         self.mismatch = []     # (region, detail) where real library/function disagreed with its spec on the representative
         self.opaque = 0
         self.hazards = []
@@ -41,6 +43,7 @@ class Ctx:
     def reset(self, model):
         self.model = model
         self.pc = []
+        self.seen = set()
         self.nobs = 0
         self.mismatch = []
         self.opaque = 0
@@ -55,6 +58,10 @@ class Ctx:
 
     def obs(self, e):
         """observation whose concrete value is *derived from the denotation*: consistent by construction"""
+        k = e.get_id()
+        if k in self.seen:
+            return self.ev(e)
+        self.seen.add(k)
         b = self.ev(e)
         self.pc.append(e if b else fNot(e))
         self.nobs += 1
@@ -63,6 +70,10 @@ class Ctx:
     def obs_eq(self, spec, real, region, detail=None):
         """observation of a real library / region answer against its spec formula"""
         real = bool(real)
+        k = (spec.get_id(), real)
+        if k in self.seen:
+            return real
+        self.seen.add(k)
         self.pc.append(spec if real else fNot(spec))
         self.nobs += 1
         if self.ev(spec) != real:
@@ -143,7 +154,8 @@ class Result(dict):
 
 
 def explore(net, harness, *, extra_vars=(), extra_constraints=(), cube=(), timebox=60.0, max_classes=None,
-            seed=0, samples=3, label="", stop_on_violation=False, class_timeout_ms=60000):
+            seed=0, samples=3, label="", stop_on_violation=False, class_timeout_ms=60000, start_at=None,
+            class_wall_s=20.0):
     """Run the concolic exploration.  harness(ctx) -> (assertion_formula, info dict)
     Returns a Result with counts, counterexamples (unreplayed), sample classes."""
     from . import oracles
@@ -162,14 +174,34 @@ def explore(net, harness, *, extra_vars=(), extra_constraints=(), cube=(), timeb
     s.add(list(extra_constraints))
     s.add(list(cube))
     t0 = time.time()
-    res = Result(label=label, classes=0, exhausted=False, violations=[], inconclusive=[], observations=0,
+
+    def _alarm(signum, frame):
+        raise Budget("class wall-time budget exceeded")
+    try:
+        signal.signal(signal.SIGALRM, _alarm)
+        have_alarm = True
+    except ValueError:
+        have_alarm = False
+    res = Result(label=label, hangs=[], classes=0, exhausted=False, violations=[], inconclusive=[], observations=0,
                  samples=[], hazards=[], queries={"frontier": 0, "class_unsat": 0, "class_sat": 0, "unknown": 0},
                  z3_s=0.0, real_s=0.0, budget_exceeded=0, errors=[])
     while True:
         if time.time() - t0 > timebox or (max_classes is not None and res["classes"] >= max_classes):
             break
         tq = time.time()
-        r = s.check()
+        if start_at is not None and res["classes"] == 0:
+            # first representative pinned (re-deciding the class of a given counterexample)
+            s.push()
+            s.add(net.pin(start_at["tables"]))
+            for k in extra_vars:
+                if str(k) in start_at.get("hist", {}):
+                    s.add(k == start_at["hist"][str(k)])
+            r = s.check()
+            m0 = s.model() if r == z3.sat else None
+            s.pop()
+        else:
+            r = s.check()
+            m0 = None
         res["z3_s"] += time.time() - tq
         res["queries"]["frontier"] += 1
         if r == z3.unsat:
@@ -178,26 +210,69 @@ def explore(net, harness, *, extra_vars=(), extra_constraints=(), cube=(), timeb
         if r != z3.sat:
             res["inconclusive"].append({"reason": "frontier query unknown"})
             break
-        m = s.model()
+        m = m0 if m0 is not None else s.model()
         ctx.reset(m)
         rules = net.rules_of_model(m)
         hist = {str(k): (m.eval(k, model_completion=True).as_long() if z3.is_int(k) else bool(z3.is_true(m.eval(k, model_completion=True)))) for k in extra_vars}
         ctx.hist = hist
         tr = time.time()
-        try:
-            assertion, info = harness(ctx, rules)
-        except Unmodelled as e:
-            res["inconclusive"].append({"reason": "unmodelled: " + str(e), "rules": rules, "hist": hist})
+        abort = False
+        hung = False
+        for attempt in range(4):
+            try:
+                if have_alarm:
+                    signal.setitimer(signal.ITIMER_REAL, class_wall_s)
+                try:
+                    assertion, info = harness(ctx, rules)
+                finally:
+                    if have_alarm:
+                        signal.setitimer(signal.ITIMER_REAL, 0)
+            except Budget:
+                # the real code did not finish on this representative within the budget (termination is the
+                # subject of C13): remember it, block this representative only, go on
+                hung = True
+                res["hangs"].append({"rules": rules, "hist": hist})
+                res["budget_exceeded"] += 1
+                ctx.opaque = 0
+                break
+            except Unmodelled as e:
+                res["inconclusive"].append({"reason": "unmodelled: " + str(e), "rules": rules, "hist": hist})
+                abort = True
+                break
+            except Exception as e:  # harness bug or unexpected failure of the real code outside a guarded op
+                res["errors"].append({"rules": rules, "hist": hist, "error": repr(e), "trace": traceback.format_exc()[-1500:]})
+                res["inconclusive"].append({"reason": "harness error: " + repr(e), "rules": rules, "hist": hist})
+                abort = True
+                break
+            newdefs = net.take_pending_defs()
+            if not newdefs:
+                break
+            # definitional atoms (reachability of a new context) were created during the run: the model did not
+            # know them, so observations that read them are void.  Extend the model and run the class again.
+            s.add(newdefs)
+            s.push()
+            s.add(net.pin(net.tables_of_model(m)))
+            s.add([k == m.eval(k, model_completion=True) for k in extra_vars])
+            r0 = s.check()
+            if r0 != z3.sat:
+                s.pop()
+                res["inconclusive"].append({"reason": "could not extend the model with new definitional atoms"})
+                abort = True
+                break
+            m = s.model()
+            s.pop()
+            ctx.reset(m)
+        if abort:
             break
-        except Exception as e:  # harness bug or unexpected failure of the real code outside a guarded op
-            res["errors"].append({"rules": rules, "hist": hist, "error": repr(e), "trace": traceback.format_exc()[-1500:]})
-            res["inconclusive"].append({"reason": "harness error: " + repr(e), "rules": rules, "hist": hist})
-            break
+        if hung:
+            s.add(z3.Not(z3.And(net.pin(net.tables_of_model(m)) + [k == m.eval(k, model_completion=True) for k in extra_vars])))
+            res["classes"] += 1
+            res["real_s"] += time.time() - tr
+            if len(res["hangs"]) >= 5:
+                break
+            continue
         res["real_s"] += time.time() - tr
         res["observations"] += ctx.nobs
-        newdefs = net.take_pending_defs()
-        if newdefs:
-            s.add(newdefs)
         PC = fAnd(list(ctx.pc))
         tq = time.time()
         if ctx.mismatch:
